@@ -56,7 +56,53 @@ def d25_probe(sc):
     return {"probe": "d25", "bad": bad}
 
 
+def owner_probe(sc):
+    """a model object that holds its own machine (`self.sm = Lamp(self)`), one event processed, is copied STARTING
+    FROM THE MODEL (deepcopy / pickle): no callback runs while copying (the machine inside is rebuilt while the
+    copied model is still empty - that is not a machine without a state), the copy holds the same state and its
+    machine drives the copy; and a machine whose stored state was reset to None is copied: original and copy
+    answer the next event alike"""
+    import copy
+    import pickle
+    import harness.c17_owner_machine as mod
+
+    def dup(x):
+        return copy.deepcopy(x) if sc["how"] == "deepcopy" else pickle.loads(pickle.dumps(x))
+
+    def outcome(sm):
+        try:
+            sm.send("toggle")
+            return ("state", sm.model.state)
+        except Exception as e:  # noqa: BLE001
+            return ("raised", type(e).__name__)
+    bad = []
+    with warnings.catch_warnings():
+        warnings.simplefilter("ignore")
+        o = mod.Owner()
+        o.sm.toggle()
+        if sc["reset"]:
+            o.state = None
+            c = dup(o.sm)
+            ra, rb = outcome(o.sm), outcome(c)
+            if ra != rb:
+                bad.append(f"stored state reset to None: the original answers {ra}, its copy {rb}")
+        else:
+            del mod.LOG[:]
+            o2 = dup(o) if sc["start"] == "model" else dup(o.sm).model
+            if mod.LOG:
+                bad.append(f"callbacks ran while copying: {mod.LOG}")
+            if o2.state != "on" or o2.sm.model is not o2 or o2.sm.current_state.id != "on":
+                bad.append(f"copy: state {o2.state!r}, machine state {o2.sm.current_state.id}, model is copy: {o2.sm.model is o2}")
+            del mod.LOG[:]
+            ra, rb = outcome(o.sm), outcome(o2.sm)
+            if ra != ("state", "off") or rb != ra or mod.LOG != ["enter_off", "enter_off"]:
+                bad.append(f"next event: original {ra}, copy {rb}, callbacks {mod.LOG}")
+    return {"probe": "owner", "bad": bad}
+
+
 def run_impl(sc):
+    if sc.get("probe") == "owner":
+        return owner_probe(sc)
     if sc.get("probe") == "d25":
         return d25_probe(sc)
     if sc.get("probe") == "copy_attach":
@@ -240,6 +286,8 @@ def coq_case(sc, obs):
 
 
 def render_source(sc):
+    if sc.get("probe") == "owner":
+        return "# probe: " + " ".join(owner_probe.__doc__.split()) + f"\n# parameters: {sc}\n"
     if sc.get("probe") == "d25":
         return "# probe: " + " ".join(d25_probe.__doc__.split()) + f" ({sc['how']})\n"
     if sc.get("probe"):
@@ -296,6 +344,7 @@ def generate(rng, tier):
         sc["observer_alias"] = rng.random() < 0.3
         sc["late_allow"] = rng.random() < 0.4 and eng.total_sends(sc) == 0     # (no event is processed by the constructor)
         sc["bound_model"] = rng.random() < 0.3
+        sc["eq_machine"] = rng.random() < 0.25       # original and clone compare equal (and hash alike)
         # guards provided both by machine/model and by a listener regroup on the clone (D19): keep each
         # guard name within one of the two sides
         scs.append(split_ops(rng, sc))
@@ -306,6 +355,10 @@ def generate(rng, tier):
         scs.append({"probe": "copy_attach", "seed": rng.randrange(10 ** 6), "first": "copy", "side": "copy", "shared_list": True})
     scs.append({"probe": "d25", "how": "deepcopy"})
     scs.append({"probe": "d25", "how": "pickle"})
+    for how in ("deepcopy", "pickle"):
+        scs.append({"probe": "owner", "how": how, "start": "model", "reset": False})
+        scs.append({"probe": "owner", "how": how, "start": "machine", "reset": False})
+        scs.append({"probe": "owner", "how": how, "start": "machine", "reset": True})
     return scs, [("seeded random machines (sync / async, rtc on/off, allow flag, start_value, stored state, state "
                   "values, listeners) cloned with deepcopy or pickle after a random prefix (also before any event, "
                   "i.e. before the activation of an async machine), then original and clone driven alternately with "
